@@ -102,9 +102,11 @@ def run_job(job):
                 ns = sorted(set(rng.sample(range(1, M + 3), 40) + [1, M - 1, M, M + 1, M + 2]
                                 + [x for x in (255, 256, 257, 1023, 1024, 1025) if x <= M])) + [0, None]
             all_ok = True
+            # a column without any file attribute next to `path` must not change how many rows come back
+            extra_col = rng.choice(["", "", ", 'tag'", ", 1 + 2", ", upper('x')", ", 7"])
             for N in ns:
                 ltxt = "" if N is None else " limit %d" % N
-                q = "path from %s%s%s%s into list" % (frm, wtxt, otxt, ltxt)
+                q = "path%s from %s%s%s%s into list" % (extra_col, frm, wtxt, otxt, ltxt)
                 r = run(q, trace=(N is not None and N % 5 == 1))
                 ctx = {"query": q, "M": M, "N": N, "result": r.brief()}
                 if r.verdict != "ok":
@@ -115,7 +117,12 @@ def run_job(job):
                     res.viol("`%s`: status %s stderr %r" % (q, r.rc, r.err[:150]), ctx)
                     all_ok = False
                     continue
-                rows = r.rows()
+                try:
+                    rows = [x[0] for x in r.rows(2)] if extra_col else r.rows()
+                except ValueError as e:
+                    res.viol("`%s`: %s" % (q, e), ctx)
+                    all_ok = False
+                    continue
                 want = M if not N else min(N, M)
                 if len(rows) != want:
                     res.viol("`%s`: %d rows, expected min(N, M) = %d (M = %d)" % (q, len(rows), want, M), ctx)
